@@ -152,7 +152,7 @@ struct Run {
         if ((e = getenv("VERIF_SEED"))) seed = atol(e);
         if ((e = getenv("VERIF_WORKERS"))) workers = atoi(e);
         if (workers < 1) workers = 1;
-        deadline_s = thorough() ? 2400 : 100;
+        deadline_s = thorough() ? 3000 : 300;
         if ((e = getenv("VERIF_DEADLINE_S"))) deadline_s = atof(e);
         if (out_path.empty()) out_path = "/dev/stdout";
         fd = open(out_path.c_str(), O_WRONLY | O_CREAT | O_APPEND, 0644);
